@@ -423,3 +423,55 @@ def check_line_breaks_are_tokens(ctx, rep):
     else:
         rep.gap("lexer:line-break-is-a-token", rd.where(), "no blank skipper found in Lexer::read")
     return 1
+
+
+def check_date_lookahead(ctx, rep):
+    """the look-ahead that tells a date from a number (`is_partial_date`, run after four digits and a `-`) accepts every date the
+    writer can emit: its five positional byte tests - month tens, month units, `-`, day tens, day units - are evaluated for all 256
+    byte values and must contain `0`-`1`, `0`-`9`, `-`, `0`-`3`, `0`-`9`. An exclusive range where an inclusive one is meant
+    sends every date on the 30th / 31st to the number reader"""
+    from rules import guards as G
+    from vlib import mir
+    from vlib.mir import strip_generics
+
+    prog = ctx.prog
+    b = prog.get("haystack::encoding::zinc::decode::scalar::date_time::is_partial_date")
+    if b is None:
+        rep.gap("is_partial_date", "-", "not found")
+        return 0
+    classes = []
+    for bi in b.rpo():
+        cands = []
+        for st in b.blocks[bi]["stmts"]:
+            if st["k"] == "assign" and not st["lhs"]["p"] and st["rv"]["k"] == "binop" and st["rv"]["op"] in ("Eq", "Ne", "Lt", "Le", "Gt", "Ge") and b.local_ty(st["lhs"]["l"]) == "bool":
+                cands.append(G.Val("binop", st["rv"]["op"], [G.describe(b, st["rv"]["a"]), G.describe(b, st["rv"]["b"])]))
+        t = b.term(bi)
+        if t["k"] == "call" and strip_generics(mir.callee_name(t) or "").split("::")[-1] == "contains" and not t["dest"]["p"] and b.local_ty(t["dest"]["l"]) == "bool":
+            cands.append(G.Val("call", strip_generics(mir.callee_name(t) or ""), [G.describe(b, a) for a in t["args"]]))
+        for d in cands:
+            m = re.search(r"(_\d+ as Continue\.0)", repr(d))
+            if not m:
+                continue
+            var = m.group(1)
+            acc = set()
+            unknown = False
+            for v in range(256):
+                r = G._eval(d, var, v, {})
+                if r is None:
+                    unknown = True
+                    break
+                if r:
+                    acc.add(v)
+            classes.append((bi, None if unknown else acc))
+    need = [set(b"01"), set(b"0123456789"), set(b"-"), set(b"0123"), set(b"0123456789")]
+    names = ["month tens", "month units", "separator", "day tens", "day units"]
+    key = "date-lookahead:positional-classes"
+    if len(classes) != 5 or any(c[1] is None for c in classes):
+        rep.bad("T-SPEC", "T-SPEC:" + key, b.where(), "is_partial_date does not consist of five positional byte tests that can be evaluated (%d found)" % len(classes))
+        return 1
+    short = [(names[i], sorted(chr(x) for x in need[i] - classes[i][1])) for i in range(5) if not need[i] <= classes[i][1]]
+    if short:
+        rep.bad("T-SPEC", "T-SPEC:" + key, b.where(classes[0][0]), "the date look-ahead refuses %s: dates the writer emits are handed to the number reader and fail" % "; ".join("%s %s" % (n, miss) for n, miss in short))
+    else:
+        rep.ok("T-SPEC", key, b.where(), "month tens 0-1, month units 0-9, '-', day tens 0-3, day units 0-9 all accepted (evaluated for 256 byte values each)")
+    return 1
